@@ -119,6 +119,8 @@ def encDeps (tree : Tree) (kind : StoreKind) (ranges : Ranges) : Option (List (N
 def opEnc (args : List String) (impl : String) : Verdict :=
   match args with
   | [b, bs, kind, fl, mode, rs, cor] =>
+    -- `syncw<k>`: a sink that accepts at most k bytes per write call; nothing may depend on that
+    let fl := if fl.startsWith "syncw" then "sync" else fl
     match blob b, bs.toNat?, storeKind? kind, parseNatList rs with
     | some d, some bs, some kind, some ranges =>
       let st0 := intactStore kind d bs
@@ -399,6 +401,33 @@ def opDecr (args : List String) (impl : String) : Verdict :=
               match impl.splitOn " " with
               | [_, itgt, _, _, _] => if itgt != dig expT then some "target differs from blob-on-selected / untouched-elsewhere" else none
               | _ => none
+            else if sources == s!"{b}/{bs}/{rs}" then
+              -- C09 at the level of the driver: an honest stream cut at byte k / with byte p altered must be
+              -- answered with the TYPED error naming the item that contains that byte
+              let honestItems := Spec.items hf d bs ranges
+              let total := (honestItems.flatMap Spec.SItem.bytes).length
+              let labelAt (p : Nat) (kindS : String) : Option String :=
+                let rec go (l : List Spec.SItem) (off : Nat) : Option String :=
+                  match l with
+                  | [] => none
+                  | i :: rest =>
+                    if p < off + i.bytes.length then
+                      some (match i with | .parent node _ => s!"Parent{kindS}({node})" | .leaf c _ => s!"Leaf{kindS}({c})")
+                    else go rest (off + i.bytes.length)
+                go honestItems 0
+              let want : Option String :=
+                match expr.splitOn ":" with
+                | ["0", "0", k] => (k.toNat?).bind fun k => if k < total then labelAt k "NotFound" else none
+                | _ =>
+                  match expr.splitOn "~" with
+                  | ["0:0:$", mu] =>
+                    match (mu.splitOn "^").mapM (·.toNat?) with
+                    | some [p, x] => if x % 256 != 0 && p < total then labelAt p "HashMismatch" else none
+                    | _ => none
+                  | _ => none
+              match want, impl.splitOn " " with
+              | some w, iterm :: _ => if iterm != w then some s!"decode_ranges answered the fault with {iterm}, expected {w}" else none
+              | _, _ => none
             else none
         { model := m, specFail := sf, nontrivial := !stream.isEmpty }
     | _, _, _, _, _, _, _ => bad "decr"
